@@ -124,3 +124,8 @@ def check(prog: Program, rep):
     from rules.c06 import flow_safety_threshold
     from rules.common import RuleProxy
     flow_safety_threshold(prog, RuleProxy(rep, "C05.R8"), "C06.R4")
+    rep.rule("C05.R9", "the greedy shortcut is accepted only after a coverage test that counts path edges (C10.R5); queued bound fixes reach the solver on every path (C12.R5)", floor=3)
+    from rules.c10 import max_occurrence_rule
+    from rules.c12 import apply_before_run
+    max_occurrence_rule(prog, RuleProxy(rep, "C05.R9"), "C10.R5")
+    apply_before_run(prog, RuleProxy(rep, "C05.R9"), "C12.R5")
